@@ -469,6 +469,13 @@ def check_unit(rep, unit, registry_owner=False):
                     base = v.func.value.id
                 if base and base in unit.mutable and base not in loc and has_mutable_values(unit.mutable[base]):
                     esc = 'a mutable element of the module-level container %s' % base
+                if base and base in unit.mutable and base not in loc and not esc:
+                    # a memo that starts empty: what the functions store into it decides whether its elements are mutable
+                    for q3, fn3, _c3 in unit.funcs:
+                        for a3 in ast.walk(fn3):
+                            if isinstance(a3, ast.Assign) and any(isinstance(t3, ast.Subscript) and isinstance(t3.value, ast.Name) and t3.value.id == base
+                                                                  for t3 in a3.targets) and is_mutable_init(a3.value):
+                                esc = 'the mutable object (%s) that %s() stored in the module-level container %s' % (src(a3.value)[:30], q3, base)
                 if esc:
                     rep.fail('OWN.escape', file, qual, src(n)[:120], n.lineno,
                              'returns %s: a caller that mutates the result changes what later calls return' % esc)
